@@ -69,7 +69,7 @@ fn main() {
         }
         i += 1;
     }
-    let stall: u64 = std::env::var("VERIF_STALL_S").ok().and_then(|v| v.parse().ok()).unwrap_or(if tier == "thorough" { 1800 } else { 600 });
+    let stall: u64 = std::env::var("VERIF_STALL_S").ok().and_then(|v| v.parse().ok()).unwrap_or(if tier == "thorough" { 3600 } else { 1200 });
     util::spawn_watchdog(prop.clone(), out.clone(), stall, seed, tier.clone());
     let ctx = Ctx { thorough: tier == "thorough", tier, seed, replay };
     let t0 = std::time::Instant::now();
